@@ -47,6 +47,8 @@ def _is_prefix(key, k2):
         return True
     if k2.startswith("len:"):
         return _is_prefix(key, k2[4:])
+    if k2.startswith("wpos:"):
+        return False
     if k2.startswith("*") and not key.startswith("*"):
         return _is_prefix(key, k2[1:])
     return False
@@ -91,6 +93,7 @@ class Analysis:
         self.ok_points = []             # (state, kind) at assignments of Ok-tagged values to _0
         self.ret_states = []
         self.final = False
+        self.dispatch = None
         self.debug = False
         self.pending = {}               # callsite id -> info for Ok-summaries
         self.sw_facts = {}              # (bi) -> description of branch facts (for reports)
@@ -691,6 +694,19 @@ class Analyzer(Analysis):
                 o.detail = "divisor not tracked"
         self.finish_ob(o)
 
+    def dispatch_summary(self, bi):
+        """weakest writer summary over the call-graph candidates of a trait-dispatched call in block bi"""
+        cands = self.dispatch.get(bi) if self.dispatch else None
+        if not cands:
+            return None
+        mins = []
+        for cid in cands:
+            s = self.summaries.get(cid)
+            if not s or s.get("w_adv_min") is None:
+                return None
+            mins.append(s["w_adv_min"])
+        return {"w_adv_min": min(mins)}
+
     def havoc_args(self, st, args, vals, bi):
         for a, v in zip(args, vals):
             self.havoc_val(st, a, v, bi)
@@ -830,9 +846,17 @@ class Analyzer(Analysis):
                 v = vals[0]
                 if v is not None and v[0] == "callres":
                     result = ("branch", v[1])
+                    self.write(st, dest_key, result)
                     self.copy_tree(st, self.key_of(st, args[0]["pl"], bi, -1) + "@Ok", dest_key + "@Continue")
+                    if self.final:
+                        self.events.append(ev)
+                    return
                 elif v is not None and v[0] == "adt" and v[2] in ("Ok", "Some"):
                     result = ("adt", "ControlFlow", "Continue", (), ())
+                handled = True
+            elif "::FromResidual<" in name and name.endswith("::from_residual"):
+                # `?` on the error path: the function returns the converted residual
+                result = ("adt", "Result", "Err", (), ())
                 handled = True
             elif OK_PRESERVING.search(name) and vals:
                 if vals[0] is not None and vals[0][0] == "callres":
@@ -894,15 +918,20 @@ class Analyzer(Analysis):
                     end = self.as_lin(st.store.get(K + ".end"))
                     i = self.sym("it%d" % bi, int_range(self.types[dest_ty["args"][0]]) if dest_ty.get("args") else (0, USIZE_HI))
                     facts = []
+                    stores = []
                     if end is not None:
                         facts.append(i - end + 1)
                     if start is not None:
+                        # Some(i): i is the old start and the new start is i + 1; None: the range is unchanged
                         facts.append(start - i)
+                        facts.append(i - start)
+                        stores.append((K + ".start", ("lin", i + 1)))
+                    else:
+                        self.kill(st, K + ".start")
                     cs = "opt%d" % bi
-                    self.pending[cs] = {"variant_facts": {1: facts}}
-                    self.kill(st, K + ".start")
-                    st.store[K] = None
-                    del st.store[K]
+                    self.pending[cs] = {"variant_facts": {1: facts}, "variant_stores": {1: stores}}
+                    if K in st.store:
+                        del st.store[K]
                     result = ("callres", cs)
                     self.write(st, dest_key, result)
                     st.store[dest_key + "@Some.0"] = ("lin", i)
@@ -935,6 +964,90 @@ class Analyzer(Analysis):
                 if self.final:
                     self.events.append(ev)
                 return
+            elif name in ("std::io::Write::write_all", "std::io::Seek::stream_position", "std::io::Seek::seek",
+                          "std::io::Write::flush") and vals and vals[0] is not None and vals[0][0] == "ref":
+                # writer-position model (assumption A-SEEK: a writer's position advances by the bytes written)
+                K = vals[0][1]
+                wk = "wpos:" + K
+                before = self.as_lin(st.store.get(wk))
+                if before is None:
+                    before = self.sym("wpos(%s)@%d" % (K, bi), (0, USIZE_HI))
+                    st.store[wk] = ("lin", before)
+                cs = "io%d" % bi
+                ev["writer"] = (K, before)
+                if name.endswith("write_all"):
+                    ln = self.slice_len_of_val(st, vals[1], self.op_ty(args[1])) if len(vals) > 1 else None
+                    after = self.sym("wpos(%s)@%d'" % (K, bi), (0, USIZE_HI))
+                    facts = [before - after]
+                    if ln is not None:
+                        facts = [before + ln - after, after - before - ln]
+                        ev["wrote"] = ln
+                    st.store[wk] = ("lin", after)
+                    self.pending[cs] = {"variant_facts": {0: facts}}
+                    if ln is not None:
+                        # on the Ok edge the position is exactly before + len (keeps chains of writes linear)
+                        self.pending[cs] = {"variant_facts": {0: []}, "variant_stores": {0: [(wk, ("lin", before + ln))]}}
+                    self.write(st, dest_key, ("callres", cs))
+                elif name.endswith("stream_position"):
+                    self.pending[cs] = {"variant_facts": {0: []}}
+                    self.write(st, dest_key, ("callres", cs))
+                    st.store[dest_key + "@Ok.0"] = ("lin", before)
+                elif name.endswith("seek"):
+                    after = self.sym("wpos(%s)@%d'" % (K, bi), (0, USIZE_HI))
+                    facts = []
+                    sv = vals[1] if len(vals) > 1 else None
+                    if sv is not None and sv[0] == "adt" and sv[1] == "SeekFrom":
+                        ev["seek"] = (sv[2], sv[3][0] if sv[3] else None)
+                        if sv[2] == "Start" and sv[3] and sv[3][0] is not None and sv[3][0][0] == "lin":
+                            facts = [sv[3][0][1] - after, after - sv[3][0][1]]
+                    st.store[wk] = ("lin", after)
+                    self.pending[cs] = {"variant_facts": {0: facts}}
+                    if facts:
+                        self.pending[cs] = {"variant_facts": {0: []}, "variant_stores": {0: [(wk, ("lin", sv[3][0][1]))]}}
+                    self.write(st, dest_key, ("callres", cs))
+                    st.store[dest_key + "@Ok.0"] = ("lin", after)
+                else:
+                    self.pending[cs] = {"variant_facts": {0: []}}
+                    self.write(st, dest_key, ("callres", cs))
+                if self.final:
+                    ev["st"] = st.copy()
+                    self.events.append(ev)
+                return
+            elif re.search(r"^core::slice::<impl \[T\]>::(iter|iter_mut)$", name) and vals and vals[0] is not None \
+                    and vals[0][0] == "slice":
+                result = ("iter", vals[0][1])
+                handled = True
+            elif name in ("std::iter::Iterator::enumerate",) and vals and vals[0] is not None and vals[0][0] == "iter":
+                result = ("enumiter", vals[0][1])
+                handled = True
+            elif name.endswith("as std::iter::Iterator>::next") and name.startswith("<std::iter::Enumerate<") and vals \
+                    and vals[0] is not None and vals[0][0] == "ref":
+                itv = st.store.get(vals[0][1])
+                if itv is not None and itv[0] == "enumiter":
+                    ln = self.length_of(st, itv[1])
+                    i = self.sym("en%d" % bi, (0, USIZE_HI))
+                    cs = "opt%d" % bi
+                    self.pending[cs] = {"variant_facts": {1: [i + 1 - ln]}}
+                    self.write(st, dest_key, ("callres", cs))
+                    st.store[dest_key + "@Some.0.0"] = ("lin", i)
+                    if self.final:
+                        self.events.append(ev)
+                    return
+            elif re.search(r"::<impl (str|\[T\])>::(splitn|rsplitn)$", name) and len(vals) >= 2:
+                result = ("splitn", self.as_lin(vals[1]))
+                handled = True
+            elif name == "std::iter::Iterator::collect" and vals and vals[0] is not None and vals[0][0] == "splitn" \
+                    and dest_ty["k"] == "adt" and dest_ty["name"].endswith("vec::Vec"):
+                # splitn(n, ..) with n >= 1 always yields at least one item and at most n
+                n = vals[0][1]
+                if n is not None and lb(n, self.iv) >= 1:
+                    ln = self.sym("collect%d" % bi, (1, max(1, ub(n, self.iv))))
+                    self.write(st, dest_key, None)
+                    st.store["len:" + dest_key] = ("lin", ln)
+                    if self.final:
+                        self.events.append(ev)
+                    return
+                handled = True
             elif name in ("std::time::Duration::from_secs", "std::time::Duration::from_millis") and vals:
                 result = ("duration", self.as_lin(vals[0]))
                 handled = True
@@ -964,6 +1077,17 @@ class Analyzer(Analysis):
             for a, v in zip(args, vals):
                 if v is not None and v[0] == "slice" and data_len is None:
                     data_len = self.length_of(st, v[1])
+            writer = None
+            for a, v in zip(args, vals):
+                if v is not None and v[0] == "ref" and len(v) > 2 and v[2]:
+                    ta = self.op_ty(a)
+                    if ta and ta["k"] == "ref" and self.types[ta["t"]]["k"] == "param":
+                        writer = v[1]
+            wbefore = None
+            if writer is not None:
+                wbefore = self.as_lin(st.store.get("wpos:" + writer))
+                if wbefore is None:
+                    wbefore = self.sym("wpos(%s)@%d" % (writer, bi), (0, USIZE_HI))
             argmap = {}
             for i, (a, v) in enumerate(zip(args, vals)):
                 if v is None:
@@ -1001,12 +1125,55 @@ class Analyzer(Analysis):
                 else:
                     for f in facts:
                         st.facts.add(f)
+            if writer is not None:
+                wafter = self.sym("wpos(%s)@%d'" % (writer, bi), (0, USIZE_HI))
+                st.store["wpos:" + writer] = ("lin", wafter)
+                wf = []
+                wsum = summ
+                if wsum is None and not c["resolved"]:
+                    # trait-dispatched writer call: use what every candidate implementation guarantees
+                    wsum = self.dispatch_summary(bi)
+                if wsum and wsum.get("w_adv_min") is not None:
+                    wf.append(wbefore + wsum["w_adv_min"] - wafter)
+                ev["writer"] = (writer, wbefore)
+                ev["writer_after"] = wafter
+                if is_result:
+                    self.pending.setdefault(cs, {"variant_facts": {}})
+                    self.pending[cs]["variant_facts"].setdefault(0, []).extend(wf)
+                else:
+                    for f in wf:
+                        st.facts.add(f)
             if is_result:
                 result = ("callres", cs)
                 self.pending.setdefault(cs, {"variant_facts": {}})
                 self.pending[cs]["callee"] = c["id"]
-            if summ and summ.get("ret_len_facts") and dest_ty["k"] == "int":
-                pass
+            elif summ and summ.get("true_facts") and dest_ty["k"] == "bool":
+                facts = []
+                okm = True
+                for f in summ["true_facts"]:
+                    g = f
+                    for s0 in f.syms():
+                        m = re.match(r"^len\(\(\*_(\d+)\)([^()]*)\)$", s0)
+                        i = int(m.group(1)) - 1
+                        v = vals[i] if i < len(vals) else None
+                        if v is None or v[0] != "ref":
+                            okm = False
+                            break
+                        g = subst(g, s0, self.length_of(st, v[1] + m.group(2)))
+                    if not okm:
+                        break
+                    facts.append(g)
+                if okm:
+                    self.pending[cs] = {"variant_facts": {1: facts}, "callee": c["id"]}
+                    result = ("boolres", cs)
+            if summ and summ.get("ret_iter") and result is None:
+                kind, path = summ["ret_iter"]
+                m = re.match(r"^\(\*_(\d+)\)(.*)$", path)
+                if m:
+                    i = int(m.group(1)) - 1
+                    v = vals[i] if i < len(vals) else None
+                    if v is not None and v[0] == "ref":
+                        result = (kind, v[1] + m.group(2))
         elif c is None:
             self.havoc_args(st, args, vals, bi)
         ev["result"] = result
@@ -1049,6 +1216,8 @@ class Analyzer(Analysis):
             return [(t["target"], st)]
         if k == "call":
             self.do_call(st, t, bi)
+            if self.final and not t["dest"]["p"] and t["dest"]["l"] == 0:
+                self.ok_points.append((bi, st.copy(), st.store.get("_0")))
             if t["target"] is None:
                 return []
             return [(t["target"], st)]
@@ -1084,10 +1253,13 @@ class Analyzer(Analysis):
                 info = self.pending.get(d[1][1], {})
                 vf = info.get("variant_facts", {})
                 seen = set()
+                vs_ = info.get("variant_stores", {})
                 for v, tgt in arms:
                     s2 = st.copy()
                     for f in vf.get(v, []):
                         s2.facts.add(f)
+                    for (k2, val2) in vs_.get(v, []):
+                        self.write(s2, k2, val2)
                     seen.add(v)
                     out.append((tgt, s2))
                 s2 = st.copy()
@@ -1095,6 +1267,20 @@ class Analyzer(Analysis):
                 if len(rest) == 1:
                     for f in vf[rest[0]]:
                         s2.facts.add(f)
+                    for (k2, val2) in vs_.get(rest[0], []):
+                        self.write(s2, k2, val2)
+                out.append((t["otherwise"], s2))
+            elif d is not None and d[0] == "boolres":
+                vf = self.pending.get(d[1], {}).get("variant_facts", {})
+                for v, tgt in arms:
+                    s2 = st.copy()
+                    for f in vf.get(1 if v != 0 else 0, []):
+                        s2.facts.add(f)
+                    out.append((tgt, s2))
+                s2 = st.copy()
+                other = 0 if (arms and arms[0][0] != 0) else 1
+                for f in vf.get(other, []):
+                    s2.facts.add(f)
                 out.append((t["otherwise"], s2))
             elif d is not None and d[0] == "discr" and d[1][0] == "adt":
                 # statically known variant (e.g. matching on a literal Ok(..))
@@ -1195,6 +1381,10 @@ class Analyzer(Analysis):
                             n += 1
                             if n > 60:
                                 break
+                # monotonicity against the value on entry to the loop
+                if not any(s.startswith(own) for s in v.syms()):
+                    gen.add(v - Lin.sym(name))
+                    gen.add(Lin.sym(name) - v)
                 # constant differences to other tracked values (phi'd or not)
                 for k2, v2 in S.store.items():
                     if k2 == k or v2 is None or v2[0] != "lin" or k2.startswith("len:") and False:
@@ -1268,6 +1458,8 @@ class Analyzer(Analysis):
                     st.store["(*%s)" % key] = ("lin", self.sym("(*%s)@entry" % key, int_range(inner)))
                 else:
                     st.store[key] = ("ref", "(*%s)" % key, t["mut"])
+                    if t["mut"] and inner["k"] == "param":
+                        st.store["wpos:(*%s)" % key] = ("lin", self.sym("wpos(*%s)@entry" % key, (0, USIZE_HI)))
         return st
 
     def rpo(self):
